@@ -15,6 +15,7 @@ for i, a in enumerate(args):
     if a == "--props": props = args[i + 1].split(",")
     if a == "--tier": tier = args[i + 1]
     if a == "--workers": workers = args[i + 1]
+ROOT = os.environ.get("VERIF_SNAPSHOT") or ("/var/tmp/verif_blind" if os.path.isdir("/var/tmp/verif_blind") else "/verif")   # a git worktree of a committed /verif for blind evaluations
 tag = "%s_%d" % (meta["id"].replace("-", "_"), os.getpid())
 wt = "/tmp/eval_repo_" + tag
 crate = "/var/tmp/eval_crate_" + tag
@@ -24,13 +25,13 @@ try:
     r = subprocess.run(["git", "-C", wt, "apply", os.path.join(d, "patch.diff")], capture_output=True, text=True)
     if r.returncode != 0:
         print("patch does not apply:", r.stderr); sys.exit(2)
-    shutil.copytree("/verif/kani_gecs", crate, ignore=shutil.ignore_patterns("target"))
+    shutil.copytree(ROOT + "/kani_gecs", crate, ignore=shutil.ignore_patterns("target"))
     ct = open(os.path.join(crate, "Cargo.toml")).read().replace('path = "/repo"', 'path = "%s"' % wt)
     open(os.path.join(crate, "Cargo.toml"), "w").write(ct)
     for p in props:
         t0 = time.time()
         env = dict(os.environ); env["VERIF_WORKERS"] = workers; env["GECS_REPO"] = wt; env["VERIF_KANI_CRATE"] = crate
-        r = subprocess.run(["/verif/check", p, "--tier", tier, "--no-evidence"], capture_output=True, text=True, cwd="/verif", env=env)
+        r = subprocess.run([ROOT + "/check", p, "--tier", tier, "--no-evidence"], capture_output=True, text=True, cwd=ROOT, env=env)
         lines = r.stdout.splitlines()
         viol = [l for l in lines if l.startswith("VIOLATION")]
         detail = [l.strip() for l in lines if l.startswith("  harness=")]
